@@ -170,7 +170,8 @@ def build_harness(variant, name, sources, extra_cflags=(), extra_ld=(), need_lib
 
         def cc(u):
             o = exe + "." + os.path.basename(u) + ".o"
-            _run([cxx] + COMMON + cflags + list(extra_cflags) + inc + ["-c", u, "-o", o])
+            fl = [f for f in cflags if not (os.path.basename(u) == "steps.cpp" and f.startswith("-fsanitize-coverage"))]
+            _run([cxx] + COMMON + fl + list(extra_cflags) + inc + ["-c", u, "-o", o])
             return o
         with ThreadPoolExecutor(max_workers=8) as ex:
             objs = list(ex.map(cc, srcs))
